@@ -19,6 +19,27 @@ def maxNested : Nat := 256
 /-- `math.MaxInt` on the 64-bit targets the library is built for -/
 def maxInt : Nat := 9223372036854775807
 
+/-- fxamacker validates the content type of the built-in tags 0..3 on the leading
+    tag chain of every item it hands to a destination (also a RawMessage):
+    0 → text string, 1 → integer or float, 2/3 → byte string. -/
+def admissible (n : Nat) (x : Cbor) : Bool :=
+  if n = 0 then (match x with | .str true _ _ => true | .strI true _ => true | _ => false)
+  else if n = 1 then
+    (match x with
+     | .int _ _ _ => true
+     | .prim .w2 _ => true | .prim .w4 _ => true | .prim .w8 _ => true
+     | _ => false)
+  else if n = 2 ∨ n = 3 then (match x with | .str false _ _ => true | .strI false _ => true | _ => false)
+  else true
+
+def tagChainOk : Cbor → Bool
+  | .tag _ n x => admissible n x && tagChainOk x
+  | _ => true
+
+def elemsOk : List Cbor → Bool
+  | [] => true
+  | x :: xs => tagChainOk x && elemsOk xs
+
 /-- fxamacker `Decode(b, &[]RawMessage)` followed by `len`: an array of any
     header form gives its item count, CBOR null/undefined give a nil slice
     (length 0), everything else (and anything ill-formed or nested deeper than
@@ -29,8 +50,8 @@ def rawListLen (b : Bytes) : Option Nat :=
   | some (t, _) =>
     if depth t > maxNested then none else
     match t with
-    | .arr _ xs => some xs.length
-    | .arrI xs => some xs.length
+    | .arr _ xs => if elemsOk xs then some xs.length else none
+    | .arrI xs => if elemsOk xs then some xs.length else none
     | .prim .w0 22 => some 0
     | .prim .w0 23 => some 0
     | _ => none
